@@ -78,7 +78,7 @@ Proof.
   - exists (m1 ++ m2). rewrite Bs1, As1, app_assoc. split; [reflexivity|]. rewrite osteps_app, As2. exact Bs2.
   - exists (n1 ++ n2). rewrite Bw1, Aw1, Bw2, Aw2, !app_assoc. split; reflexivity.
 Qed.
-Lemma same_kx w w' : same w w' -> kx w w'.
+Lemma same_kx {b} w w' : sameb b w w' -> kx w w'.
 Proof.
   intros Hs. constructor; try apply Hs.
   - intros tid c. rewrite (same_tided _ _ Hs). auto.
@@ -101,14 +101,14 @@ Proof.
   - rewrite As1, osteps_app, K8. exact As2.
   - rewrite Aw1, Aw2, K9. reflexivity.
 Qed.
-Lemma same_K w w' : same w w' -> Kinv w -> Kinv w'.
-Proof. intros Hs. apply kx_K, same_kx, Hs. Qed.
+Lemma same_K {b} w w' : sameb b w w' -> Kinv w -> Kinv w'.
+Proof. intros Hs. eapply kx_K, same_kx, Hs. Qed.
 
 Definition Xk (f : world -> world) : Prop := forall w, kx w (f w).
 Lemma Xk_fold {Y} (f : world -> Y -> world) l : (forall x, Xk (fun w => f w x)) -> Xk (fun w => fold_left f l w).
 Proof. intros H. induction l as [|x l IH]; intros w; cbn [fold_left]; [apply kx_refl|]. eapply kx_trans; [apply (H x w)|apply IH]. Qed.
-Lemma Xk_neutral f : neutral f -> Xk f.
-Proof. intros H w. apply same_kx, H. Qed.
+Lemma Xk_neutral {b} f : (forall w, sameb b w (f w)) -> Xk f.
+Proof. intros H w. eapply same_kx, H. Qed.
 
 (* ------------------------------------------------------------------ primitives that the invariant does not notice *)
 Ltac nosess := exists []; rewrite ?app_nil_r; split; reflexivity.
@@ -149,18 +149,18 @@ Qed.
 Lemma Xk_store_stop st a k : Xk (store_stop st a k).
 Proof.
   intros w. unfold store_stop. destruct (aget key_eqb k _); [|apply Xk_put_store].
-  eapply kx_trans; [|apply Xk_neutral, n_store_callback]. eapply kx_trans; [apply Xk_put_store|apply Xk_cancel_opt].
+  eapply kx_trans; [|eapply Xk_neutral, n_store_callback]. eapply kx_trans; [apply Xk_put_store|apply Xk_cancel_opt].
 Qed.
 Lemma Xk_store_expired st a k : Xk (store_expired st a k).
 Proof.
   intros w. unfold store_expired. destruct (aget key_eqb k _); [|apply Xk_put_store].
-  eapply kx_trans; [apply Xk_put_store|apply Xk_neutral, n_store_callback].
+  eapply kx_trans; [apply Xk_put_store|eapply Xk_neutral, n_store_callback].
 Qed.
 Lemma Xk_store_stop_all_for_address st a : Xk (store_stop_all_for_address st a).
 Proof.
   intros w. unfold store_stop_all_for_address. eapply kx_trans; [apply Xk_put_store|].
   apply (Xk_fold (fun acc p => store_callback st (fst p) a (cancel_opt (snd p) acc))). intros p w0.
-  eapply kx_trans; [apply Xk_cancel_opt|apply Xk_neutral, n_store_callback].
+  eapply kx_trans; [apply Xk_cancel_opt|eapply Xk_neutral, n_store_callback].
 Qed.
 Lemma Xk_store_stop_all st : Xk (store_stop_all st).
 Proof.
@@ -180,10 +180,10 @@ Proof.
   - eapply kx_trans; [|apply Xk_refresh_tail]. eapply kx_trans; [apply Xk_put_store|apply Xk_cancel_opt].
   - destruct st as [|i], k as [s|sub]; try (eapply kx_trans; [apply Xk_put_store|apply Xk_refresh_tail]).
     + eapply kx_trans; [|apply Xk_refresh_tail]. eapply kx_trans; [apply Xk_put_store|].
-      apply Xk_neutral. apply n_notify_service. intros l. apply n_listener_offered.
+      eapply Xk_neutral. apply n_notify_service. intros l. apply n_listener_offered.
     + destruct (client_subscribed i sub a _) as [w' ok] eqn:Ec.
       match type of Ec with client_subscribed _ _ _ ?w0 = _ => pose proof (n_client_subscribed i sub a w0) as Hs; cbv beta in Hs; rewrite Ec in Hs; cbn [fst] in Hs end.
-      destruct ok; cbn [negb fst]; (eapply kx_trans; [apply Xk_put_store|]); [eapply kx_trans; [apply same_kx; exact Hs|apply Xk_refresh_tail]|apply same_kx; exact Hs].
+      destruct ok; cbn [negb fst]; (eapply kx_trans; [apply Xk_put_store|]); [eapply kx_trans; [eapply same_kx; exact Hs|apply Xk_refresh_tail]|eapply same_kx; exact Hs].
 Qed.
 
 
@@ -220,7 +220,7 @@ Definition kkK (f : world -> world) : Prop := forall X w, GGK X w -> GGK X (f w)
 
 Lemma kkK_of f : kk f -> Xk f -> kkK f.
 Proof. intros H1 H2 X w [Hg Hk]. split; [apply H1; exact Hg|eapply kx_K; [apply H2|exact Hk]]. Qed.
-Lemma GGK_same X w w' : same w w' -> GGK X w -> GGK X w'.
+Lemma GGK_same {b} X w w' : sameb b w w' -> GGK X w -> GGK X w'.
 Proof. intros Hs [Hg Hk]. split; [eapply GG_same; eauto|eapply same_K; eauto]. Qed.
 Lemma kkK_neutral f : neutral f -> kkK f.
 Proof. intros H X w Hg. eapply GGK_same; [apply H|exact Hg]. Qed.
